@@ -74,7 +74,7 @@ fn pos_class(pos: &str) -> String {
 fn root_cause(variant: &str, pert: &str, pos: &str) -> String {
     let pc = pos_class(pos);
     let stat = pc.ends_with("@static");
-    if pert == "mixed-array" { return format!("{}:any-typed-value", variant); }
+    if pert == "mixed-array" { return format!("{}:any-typed-value,any-typed-value", variant); }
     if ["setfn-scalar", "setfn-string", "setfn-mixed"].contains(&pert) { return format!("{}:set-function-of-non-iterable", variant); }
     if ["block-as-value", "scoped-as-value", "avg-as-value", "abs-as-value", "logic-block-as-value"].contains(&pert) && stat { return format!("{}:aggregate-in-compile-time-position", variant); }
     if UNDECLARED_FAMILY.contains(&pert) { return format!("{}:reference-to-undeclared-family", variant); }
@@ -140,13 +140,20 @@ pub fn pool() -> Vec<(&'static str, &'static str, bool)> {
         ("neg-string", "-pS", false), ("array-plus-int", "pArr + 1", false), ("string-concat", "pS + pS", false), ("div-zero", "1 / 0", false), ("bool-times-bool", "pB * pB", false),
         ("overflow", "9223372036854775807 + 1", false), ("not-bool", "!pB", false), ("neg-bool", "-pB", false), ("tuple-plus", "pt + 1", true), ("node-plus", "pn + 1", true),
         ("infinity", "Infinity", false), ("underscore", "_", false),
+        // a matrix whose rows have different element kinds (well-typed row first): every element is `Any`, a numeric use of
+        // an element of a later row must be rejected; set functions over iterables of DIFFERENT element kinds likewise
+        ("mixed-rows-element", "pMix[1][0]", false), ("mixed-rows-first", "pMix[0][0]", false), ("mixed-rows-sum", "sum(q8 in pMix, q7 in q8) { q7 }", false),
+        ("mixed-rows-literal-sum", "sum(q8 in [[1, 2], [\"a\", \"b\"]], q7 in q8) { q7 }", false), ("mixed-depth-sum", "sum(q8 in [[1, 2], [[3], [4]]], q7 in q8) { q7 }", false),
+        ("union-mixed-sum", "sum(q8 in union(pArr, pSs)) { q8 }", false), ("union-mixed-sum-literal", "sum(q8 in union([1, 2], [\"a\"])) { q8 }", false),
+        ("union-mixed-len", "len(union(pArr, pSs))", false), ("difference-mixed-sum", "sum(q8 in difference(pArr, pSs)) { q8 }", false),
+        ("union-edges-destructure", "sum((q6, q7, q8) in union(edges(pG), pArr)) { q8 }", false),
         // compound variables of a family that is declared nowhere (wrong base name / wrong number of indexes), NON-literal index
         ("undeclared-family-var", "nofam_pi0", true), ("undeclared-family-expr", "nofam_{pi0 + 1}", true), ("undeclared-family-mixed", "nofam_1_pi0", true),
         ("wrong-arity-family-more", "pw_pi0_pi0", true), ("wrong-arity-family-less", "pu_pn", true), ("wrong-arity-family-expr", "pb_{pi0 + 1}_1", true),
     ]
 }
 
-const EXTRA_CONSTS: [(&str, &str); 8] = [("pS", "\"s\""), ("pB", "true"), ("pArr", "[4, 5, 6]"), ("pMat", "[[1, 2], [3]]"), ("pG", "Graph { A -> [B: 2, C], B -> [C], C }"),
+const EXTRA_CONSTS: [(&str, &str); 9] = [("pMix", "[[1, 2], [\"a\", \"b\"]]"), ("pS", "\"s\""), ("pB", "true"), ("pArr", "[4, 5, 6]"), ("pMat", "[[1, 2], [3]]"), ("pG", "Graph { A -> [B: 2, C], B -> [C], C }"),
     ("pF", "1.5"), ("pSs", "[\"a\", \"b\"]"), ("pN", "3")];
 
 /// hand-written templates: every builtin in every argument position, nested scopes, destructuring.
@@ -245,7 +252,8 @@ fn expr_cases(r: &mut Rng, n: usize) -> Vec<Case> {
         c.tags = vec!["stream:expression-core".into(), format!("expr-typecheck:{}", tc), format!("expr-eval:{}", if ev.starts_with("(ok") { "value" } else { &ev })];
         c.nontrivial = tc;
         c.show = format!("{} => {}", c.req, c.imp);
-        if tc && ev.starts_with("(err") {
+        // since /repo ab600c7 a data failure (division by zero, overflow) is reported as `Other`
+        if tc && ev.starts_with("(err") && TYPE_CLASS.contains(&&ev[5..ev.len() - 1]) {
             c.sig = Some(if applicable == Some(true) { format!("{}:operator-applicable", &ev[5..ev.len() - 1]) } else { format!("{}:expression-core", &ev[5..ev.len() - 1]) });
             c.impl_violation = Some(format!("accepted operator expression fails with a type-class error: {}", c.show));
         }
@@ -349,7 +357,7 @@ fn le_sx(e: &LE) -> String {
 }
 /// what the generator believes a name holds (only used to bias towards well-typed programs)
 #[derive(Clone, PartialEq)]
-enum LK { Num, Bool, Str, ArrNum, ArrStr, Mat, Other }
+enum LK { Num, Bool, Str, ArrNum, ArrStr, Mat, EnumNum, EnumStr, EnumRows, Other }
 
 fn gen_lit(r: &mut Rng, k: &LK) -> LV {
     match k {
@@ -357,7 +365,10 @@ fn gen_lit(r: &mut Rng, k: &LK) -> LV {
         LK::Bool => LV::B(r.chance(1, 2)), LK::Str => LV::S(r.pick(&["a", "b", "cd"]).to_string()),
         LK::ArrNum => { let fl = r.chance(1, 4); LV::Arr((0..r.below(4)).map(|_| if fl { LV::F(r.range(0, 9) as f64 / 2.0) } else { LV::I(r.range(0, 6)) }).collect()) }
         LK::ArrStr => LV::Arr((0..1 + r.below(3)).map(|_| LV::S(r.pick(&["a", "b"]).to_string())).collect()),
-        LK::Mat => LV::Arr((0..1 + r.below(3)).map(|_| LV::Arr((0..1 + r.below(3)).map(|_| LV::I(r.range(0, 6))).collect())).collect()),
+        // now and then rows of different element kinds, the well-typed row first (`Any[]`: every numeric use must be rejected)
+        LK::Mat => if r.chance(1, 9) { LV::Arr(vec![LV::Arr(vec![LV::I(r.range(0, 6)), LV::I(r.range(0, 6))]), if r.chance(1, 2) { LV::Arr(vec![LV::S("a".into()), LV::S("b".into())]) } else { LV::Arr(vec![LV::Arr(vec![LV::I(3)]), LV::Arr(vec![LV::I(4)])]) }]) }
+            else { LV::Arr((0..1 + r.below(3)).map(|_| LV::Arr((0..1 + r.below(3)).map(|_| LV::I(r.range(0, 6))).collect())).collect()) },
+        LK::EnumNum | LK::EnumStr | LK::EnumRows => LV::Arr(vec![]),
         LK::Other => match r.below(3) { 0 => LV::Arr(vec![LV::I(1), LV::S("a".into())]), 1 => LV::Arr(vec![]), _ => LV::Arr(vec![LV::Arr(vec![LV::I(1)]), LV::Arr(vec![LV::S("a".into())])]) },
     }
 }
@@ -372,7 +383,7 @@ fn gen_le(r: &mut Rng, env: &[(String, LK)], want: &LK, d: u32) -> (LE, LK) {
         let (e, _) = gen_le(r, env, &wrong, 0);
         return (e, want.clone());
     }
-    if d == 0 || r.chance(1, 3) {
+    if (d == 0 || r.chance(1, 3)) && !matches!(want, LK::EnumNum | LK::EnumStr | LK::EnumRows) {
         if r.chance(1, 2) { if let Some(n) = pick_var(r, want) { return (LE::Var(n), want.clone()); } }
         return (LE::Lit(gen_lit(r, want)), want.clone());
     }
@@ -394,6 +405,12 @@ fn gen_le(r: &mut Rng, env: &[(String, LK)], want: &LK, d: u32) -> (LE, LK) {
             1 => { if let Some(n) = pick_var(r, &LK::Mat) { let (i, _) = gen_le(r, env, &LK::Num, 0); (LE::Acc(n, vec![i]), LK::ArrNum) } else { (LE::Lit(gen_lit(r, &LK::ArrNum)), LK::ArrNum) } }
             _ => (LE::Lit(gen_lit(r, &LK::ArrNum)), LK::ArrNum),
         },
+        LK::EnumNum | LK::EnumStr | LK::EnumRows => {
+            let inner = match want { LK::EnumNum => LK::ArrNum, LK::EnumStr => LK::ArrStr, _ => LK::Mat };
+            let (a, _) = gen_le(r, env, &inner, d.saturating_sub(1));
+            let f = if r.chance(1, 4) { "enum" } else { "enumerate" };
+            (LE::Call(f.into(), if r.chance(1, 12) { vec![a.clone(), a] } else { vec![a] }), want.clone())
+        }
         k => (LE::Lit(gen_lit(r, k)), k.clone()),
     }
 }
@@ -429,7 +446,7 @@ fn gen_lets(r: &mut Rng, max: usize) -> (Vec<(String, LK)>, Vec<(String, LE)>) {
     let mut env: Vec<(String, LK)> = if r.chance(1, 4) { vec![("PI".to_string(), LK::Num), ("Infinity".to_string(), LK::Num), ("MinusInfinity".to_string(), LK::Num)] } else { vec![] };
     let mut lets: Vec<(String, LE)> = vec![];
     for k in 0..2 + r.below(max) {
-        let want = r.pick(&[LK::Num, LK::Num, LK::Num, LK::Bool, LK::Str, LK::ArrNum, LK::ArrNum, LK::Mat, LK::ArrStr, LK::Other]).clone();
+        let want = r.pick(&[LK::Num, LK::Num, LK::Num, LK::Bool, LK::Str, LK::ArrNum, LK::ArrNum, LK::Mat, LK::ArrStr, LK::Other, LK::EnumNum]).clone();
         let (e, kind) = gen_le(r, &env, &want, 2);
         let name = if r.chance(1, 20) && !env.is_empty() { env[0].0.clone() } else if r.chance(1, 25) { "_".to_string() } else { format!("q{}", k) };
         if name != "_" && !env.iter().any(|p| p.0 == name) { env.push((name.clone(), kind)); }
@@ -461,11 +478,12 @@ fn gen_its(r: &mut Rng, cenv: &[(String, LK)], low: bool, fresh: &mut usize, min
     let mut env = cenv.to_vec();
     let mut its = vec![];
     for _ in 0..min + r.below(3 - min) {
-        let shape = r.below(if low { 8 } else { 10 });
-        let want = match shape { 0..=3 => LK::ArrNum, 4..=6 => LK::Mat, 7 => LK::ArrStr, 8 => LK::Num, _ => LK::Other };
+        let shape = r.below(if low { 12 } else { 14 });
+        let want = match shape { 0..=3 => LK::ArrNum, 4..=6 => LK::Mat, 7 => LK::ArrStr, 8 | 9 => LK::EnumNum, 10 => LK::EnumStr, 11 => LK::EnumRows, 12 => LK::Num, _ => LK::Other };
         let (over, _) = gen_le(r, &env, &want, 1);
-        let tuple = match want { LK::Mat => r.chance(2, 3), LK::ArrNum | LK::ArrStr => !low && r.chance(1, 8), _ => r.chance(1, 3) };
-        let nv = if tuple { 1 + r.below(if low { 2 } else { 3 }) } else { 1 };
+        let is_enum = matches!(want, LK::EnumNum | LK::EnumStr | LK::EnumRows);
+        let tuple = match want { LK::Mat => r.chance(2, 3), LK::ArrNum | LK::ArrStr => !low && r.chance(1, 8), LK::EnumNum | LK::EnumStr | LK::EnumRows => low || r.chance(5, 6), _ => r.chance(1, 3) };
+        let nv = if tuple { if is_enum { if low { 1 + r.below(2) } else { 1 + r.below(3) } } else { 1 + r.below(if low { 2 } else { 3 }) } } else { 1 };
         let mut vars = vec![];
         for _ in 0..nv {
             *fresh += 1;
@@ -473,7 +491,11 @@ fn gen_its(r: &mut Rng, cenv: &[(String, LK)], low: bool, fresh: &mut usize, min
             vars.push(name);
         }
         let elem = match (&want, tuple) { (LK::ArrNum, false) => LK::Num, (LK::ArrStr, false) => LK::Str, (LK::Mat, false) => LK::ArrNum, (LK::Mat, true) => LK::Num, _ => LK::Other };
-        for v in &vars { if v != "_" && !env.iter().any(|p| &p.0 == v) { env.push((v.clone(), elem.clone())); } }
+        for (pos, v) in vars.iter().enumerate() {
+            // components of an enumerate element: (element, index)
+            let k = if is_enum && tuple { match (pos, &want) { (1, _) => LK::Num, (0, LK::EnumNum) => LK::Num, (0, LK::EnumStr) => LK::Str, (0, LK::EnumRows) => LK::ArrNum, _ => LK::Other } } else { elem.clone() };
+            if v != "_" && !env.iter().any(|p| &p.0 == v) { env.push((v.clone(), k)); }
+        }
         its.push(LIt { vars, tuple, over });
     }
     (its, env)
@@ -608,14 +630,15 @@ fn scopes_case(lets: &[(String, LE)], decls: &[LDecl], fors: &[LFor]) -> Case {
             }
             Err(e) => format!("(err {})", class_of(&e)),
         };
-        Ok::<_, String>((names, tc, tr))
+        let static_any = pre.create_token_type_map(&vec![], &IndexMap::new()).iter().any(|(_, tok)| serde_json::to_string(tok).map(|t| t.contains("\"Any\"")).unwrap_or(false));
+        Ok::<_, String>((names, tc, tr, static_any))
     }));
     let mut c = Case::default();
     c.tags = vec!["stream:scopes".into()];
-    let (names, tc, tr) = match res {
+    let (names, tc, tr, static_any) = match res {
         Ok(Ok(x)) => x,
         Ok(Err(e)) => { c.tags.push("scopes-parse-error".into()); c.show = format!("{}\n{}", src, e); return c; }
-        Err(_) => (lets.iter().map(|l| l.0.clone()).collect(), "(panic)".into(), "(panic)".into()),
+        Err(_) => (lets.iter().map(|l| l.0.clone()).collect(), "(panic)".into(), "(panic)".into(), false),
     };
     let it_sx = |it: &LIt| format!("(it ({}) {} {})", it.vars.iter().map(|v| sx::q(v)).collect::<Vec<_>>().join(" "), if it.tuple { "tuple" } else { "single" }, le_sx(&it.over));
     let its_sx = |its: &Vec<LIt>| its.iter().map(|i| format!(" {}", it_sx(i))).collect::<String>();
@@ -640,8 +663,8 @@ fn scopes_case(lets: &[(String, LE)], decls: &[LDecl], fors: &[LFor]) -> Case {
     c.nontrivial = tc == "(ok)";
     if tc == "(ok)" && TYPE_CLASS.contains(&trv.as_str()) {
         let v = run_program(&src);
-        let any = src.contains("[]") || src.contains("[1, \"a\"]") || src.contains("[[1], [\"a\"]]");
-        c.sig = Some(if v.applicable == Some(true) { format!("{}:operator-applicable", trv) } else if any { format!("{}:any-typed-value", trv) } else { format!("{}:scopes", trv) });
+        let any = static_any;
+        c.sig = Some(if v.applicable == Some(true) { format!("{}:operator-applicable", trv) } else if any { format!("{}:any-typed-value,any-typed-value", trv) } else { format!("{}:scopes", trv) });
         c.oracle = format!("sound ok {} {}", trv, match v.applicable { Some(true) => "applicable", Some(false) => "inapplicable", None => "na" });
         c.impl_violation = Some(format!("declarations / quantified constraints are accepted by the type checker and fail at transform with {}", trv));
     }
@@ -702,11 +725,13 @@ fn lets_case(lets: &[(String, LE)]) -> Case {
                 kinds.push((start, id.to_string(), kind_from_json(v.get("value").unwrap_or(&serde_json::Value::Null))));
             }
         }
+        // does the checker give some token the kind `Any` (known finding C19-any-escape applies only then)
+        let static_any = map.iter().any(|(_, tok)| serde_json::to_string(tok).map(|t| t.contains("\"Any\"")).unwrap_or(false));
         let tr = match pre.clone().transform(vec![], &IndexMap::new()) { Ok(_) => "ok".to_string(), Err(e) => format!("(err {})", class_of(&e)) };
-        Ok::<_, String>((names, tc, kinds, tr))
+        Ok::<_, String>((names, tc, kinds, tr, static_any))
     }));
     let underscore = lets.iter().any(|l| l.0 == "_");
-    let (names, tc, kinds, tr) = match res {
+    let (names, tc, kinds, tr, static_any) = match res {
         Ok(Ok(x)) => x,
         Ok(Err(e)) => {
             let mut c = Case::default();
@@ -718,7 +743,7 @@ fn lets_case(lets: &[(String, LE)]) -> Case {
             }
             return c;
         }
-        Err(_) => (vec![], "(panic)".into(), vec![], "(panic)".into()),
+        Err(_) => (vec![], "(panic)".into(), vec![], "(panic)".into(), false),
     };
     // the kind recorded at the position of every constant's name, in source order
     let kind_list: Vec<String> = names.iter().map(|(name, pos)| kinds.iter().find(|k| k.0 == *pos && &k.1 == name).map(|k| k.2.clone()).unwrap_or_else(|| "?".into())).collect();
@@ -752,8 +777,8 @@ fn lets_case(lets: &[(String, LE)]) -> Case {
     let trv = tr.trim_start_matches("(err ").trim_end_matches(')');
     if tc == "(ok)" && TYPE_CLASS.contains(&trv) {
         let v = run_program(&src);
-        let any = kind_list.iter().any(|k| k.contains("any")) || src.contains("[]") || src.contains("[1, \"a\"]") || src.contains("[[1], [\"a\"]]");
-        c.sig = Some(if v.applicable == Some(true) { format!("{}:operator-applicable", trv) } else if any { format!("{}:any-typed-value", trv) } else { format!("{}:where-section", trv) });
+        let any = static_any || kind_list.iter().any(|k| k.contains("any"));
+        c.sig = Some(if v.applicable == Some(true) { format!("{}:operator-applicable", trv) } else if any { format!("{}:any-typed-value,any-typed-value", trv) } else { format!("{}:where-section", trv) });
         c.oracle = format!("sound ok {} {}", trv, match v.applicable { Some(true) => "applicable", Some(false) => "inapplicable", None => "na" });
         c.impl_violation = Some(format!("the where section is accepted by the type checker and fails at transform with {}", trv));
     }
